@@ -15,6 +15,11 @@ CLAIMED = {
         "level": "Decides the logic of the signature gate (which is ordinary table-like Rust code): every path to a TypedFunc passes all four checks; every constructor arm, arity pattern and leaf row is enumerated and compared. Does not decide TypeRegistry contents for foreign TypeIds (trusted) nor ABI correctness (C05).",
         "note": "Close to whole-property for the gate's logic; G8 sealed-trait witnesses are in the thorough tier.",
     },
+    "C01": {
+        "technique": "HIR table extraction with symbolic guard evaluation; comparison of sibling tables (ast::BinOp -> lir -> cranelift) with a spec table; operand-origin tracing through let-bindings",
+        "level": "Decides only the operator/width/signedness selection tables and operand wiring (every row of every table, exhaustively); the behaviour of generated code for all programs and inputs is NOT decided (not statically reachable).",
+        "note": "Partial: clauses T1-T4.",
+    },
 }
 _PENDING = "check under construction in this session; not yet claimed"
 NOT_APPLICABLE = {p: _PENDING for p in
